@@ -453,6 +453,9 @@ def gen_chain(g, filters=0.0, roots=0.0, doc=None, small=False):
                             got = inner_reach(isp, [x])
                             eq = bool(got) and same(got[0])
                             return (not eq) if ne else eq
+                        if r.random() < 0.25:
+                            # the literal on the left (Coq's BLL): the same comparison
+                            return litt + ('!=' if ne else '==') + '@' + it, ('ll', isp, ne, lv), tl
                         return '@' + it + ('!=' if ne else '==') + litt, ('l', isp, ne, lv), tl
                     it, isp = gen_inner(r, r.choice(kids) if kids else None)
                     if k0 < 0.8:
